@@ -42,13 +42,13 @@ func vBytes(n int) []byte {
 	}
 	return r
 }
-func vByte() byte        { return byte(next()) }
-func vRune() rune        { return rune(int32(uint32(next()))) }
-func vInt() int          { return int(next()) }
-func vInt64() int64      { return int64(next()) }
-func vUint64() uint64    { return next() }
-func vBool() bool        { return next() != 0 }
-func vChoose(k int) int  { return int(next()) }
+func vByte() byte         { return byte(next()) }
+func vRune() rune         { return rune(int32(uint32(next()))) }
+func vInt() int           { return int(next()) }
+func vInt64() int64       { return int64(next()) }
+func vUint64() uint64     { return next() }
+func vBool() bool         { return next() != 0 }
+func vChoose(k int) int   { return int(next()) }
 func vAnd(a, b bool) bool { return a && b }
 func vOr(a, b bool) bool  { return a || b }
 func vNot(a bool) bool    { return !a }
@@ -199,6 +199,22 @@ func wfls(b []byte) (wf bool, lineSafe bool) {
 		}
 	}
 	return !open, lineSafe
+}
+
+// linesWF: every LF-separated line of b is well-formed on its own (C03,
+// second sentence).
+func linesWF(b []byte) bool {
+	start := 0
+	for k := 0; k <= len(b); k++ {
+		if k == len(b) || b[k] == '\n' {
+			w, _ := wfls(b[start:k])
+			if !w {
+				return false
+			}
+			start = k + 1
+		}
+	}
+	return true
 }
 
 // strip deletes every S and E.
